@@ -334,17 +334,21 @@ def check_forwarding(c, repo):
     ks2 = [kk for kk in calls_in(pp.node) if (dotted(kk.func) or '').endswith('PtyProcess.spawn')]
     ok = len(ks2) == 1 and ks2[0].args and is_name(ks2[0].args[0], 'args') and any(kw.arg is None and is_name(kw.value, 'kwargs') for kw in ks2[0].keywords)
     c.check(ok, pp, ks2[0] if ks2 else None, '_spawnpty passes argv and every keyword on to PtyProcess.spawn', witness=norm(ks2[0]) if ks2 else '', kind='ast', tag='spawnpty')
-    # argv construction
-    t = [t for t in g.nodes if t.kind == 'test' and norm(t.ast) == 'args == []']
-    c.need(len(t) == 1, '_spawn: `if args == []` not found')
-    tr, fr = guard_region(g, t[0], 'true'), guard_region(g, t[0], 'false')
-    a1 = [n for n in tr if n.kind == 'stmt' and stmt_assigns_attr(n.ast, 'args') is not None]
-    ok = len(a1) == 1 and norm(a1[0].ast.value) == 'split_command_line(command)'
-    c.check(ok, sp, a1[0].ast if a1 else t[0].ast, 'without an explicit list argv is the split command line', kind='ast', tag='argv-split')
-    a2 = [n for n in fr if n.kind == 'stmt' and stmt_assigns_attr(n.ast, 'args') is not None]
-    ins = [kk for n in fr for kk in node_calls(n) if callee_last(kk) == 'insert']
-    ok = len(a2) == 1 and norm(a2[0].ast.value) == 'args[:]' and len(ins) == 1 and [norm(x) for x in ins[0].args] == ['0', 'command']
-    c.check(ok, sp, a2[0].ast if a2 else t[0].ast, 'with an explicit list argv is [command] + a copy of the list, unchanged', kind='ast', tag='argv-list')
+    # argv construction: what self.args holds when the executable is looked up, for `args == []` and for an explicit list, found by
+    # running the statements that touch `args` / `self.args` on every path of each scenario (list objects: the caller's list, the
+    # result of split_command_line, fresh copies) -- the caller's list must come out untouched
+    wn = [n for n, kk in cfg_nodes_with_call(sp, lambda kk: callee_last(kk) == 'which')]
+    c.need(len(wn) == 1, '_spawn: which() call not found')
+    A_EMPTY = atom_key(ast.parse('args == []', mode='eval').body)[0]
+    for empty in (True, False):
+        outcomes = argv_outcomes(sp, g, wn[0], {A_EMPTY: empty})
+        if empty:
+            ok = bool(outcomes) and all(o == (('split',), False) for o in outcomes)
+            c.check(ok, sp, wn[0].ast, 'without an explicit list argv is the split command line', witness=str(outcomes), kind='alg', tag='argv-split')
+        else:
+            ok = bool(outcomes) and all(o == (('command', '*args'), False) for o in outcomes)
+            c.check(ok, sp, wn[0].ast, 'with an explicit list argv is [command] + a copy of the list, and the caller\'s list is left unchanged',
+                    witness=str(outcomes), kind='alg', tag='argv-list')
     a0 = [n for n in g.nodes if n.kind == 'stmt' and isinstance(n.ast, ast.Assign) and norm(n.ast.targets[0]) == 'self.args[0]']
     c.check(len(a0) == 1 and norm(a0[0].ast.value) == 'self.command', sp, a0[0].ast if a0 else None, 'argv[0] is the resolved executable', kind='ast', tag='argv0')
     # PopenSpawn
@@ -361,6 +365,72 @@ def check_forwarding(c, repo):
         c.check(all(o.get(a) == a for o in outs), pi, pk[0], 'PopenSpawn forwards %s to subprocess.Popen' % a, witness=str(outs)[:200], kind='alg', tag='popen-' + a)
     ok = len(pk) == 1 and pk[0].args and is_name(pk[0].args[0], 'cmd')
     c.check(ok, pi, pk[0] if pk else None, 'subprocess.Popen(cmd, **kwargs)', kind='ast', tag='popen-call')
+
+
+def argv_outcomes(sp, g, stop, scenario):
+    """{(content of self.args, caller's list was modified)} over the paths entry -> *stop* that the scenario allows"""
+    outs = set()
+    for path in scenario_paths(g, scenario):
+        if stop not in path:
+            continue
+        objs = {'CALLER': ('*args',)}
+        env = {'args': 'CALLER'}
+        fresh = [0]
+        mutated = False
+
+        def new(content):
+            fresh[0] += 1
+            k = 'O%d' % fresh[0]
+            objs[k] = tuple(content)
+            return k
+
+        def ref(e):
+            t = norm(e)
+            if t in env:
+                return env[t]
+            if isinstance(e, ast.Call) and callee_last(e) == 'split_command_line' and [norm(a) for a in e.args] == ['command']:
+                return new(('split',))
+            if isinstance(e, ast.Call) and callee_last(e) == 'split_command_line':
+                return new(('split of %s' % ', '.join(norm(a) for a in e.args),))          # not the command line as given
+            if isinstance(e, ast.Subscript) and isinstance(e.slice, ast.Slice) and e.slice.lower is None and e.slice.upper is None and e.slice.step is None \
+                    and norm(e.value) in env:
+                return new(objs[env[norm(e.value)]])
+            if isinstance(e, ast.Call) and isinstance(e.func, ast.Name) and e.func.id == 'list' and len(e.args) == 1 and norm(e.args[0]) in env:
+                return new(objs[env[norm(e.args[0])]])
+            if isinstance(e, ast.BinOp) and isinstance(e.op, ast.Add) and isinstance(e.left, ast.List) and [norm(x) for x in e.left.elts] == ['command'] \
+                    and norm(e.right) in env:
+                return new(('command',) + objs[env[norm(e.right)]])
+            return None
+        for n in path[:path.index(stop)]:
+            a = n.ast
+            if n.kind != 'stmt' or a is None:
+                continue
+            touches = any(norm(x) in ('args', 'self.args') for x in ast.walk(a) if isinstance(x, (ast.Name, ast.Attribute)))
+            if not touches:
+                continue
+            if isinstance(a, ast.Assign) and len(a.targets) == 1 and norm(a.targets[0]) in ('args', 'self.args'):
+                r = ref(a.value)
+                if r is None:
+                    raise AnalysisError('_spawn: argv construction not understood: %s' % norm(a))
+                env[norm(a.targets[0])] = r
+                continue
+            if isinstance(a, ast.Expr) and isinstance(a.value, ast.Call) and callee_last(a.value) == 'insert' and norm(a.value.func.value) in env \
+                    and [norm(x) for x in a.value.args] == ['0', 'command']:
+                o = env[norm(a.value.func.value)]
+                objs[o] = ('command',) + objs[o]
+                if o == 'CALLER':
+                    mutated = True
+                continue
+            if isinstance(a, ast.Assign) and len(a.targets) == 1 and norm(a.targets[0]) in ('self.command', 'self.name') \
+                    and not any(isinstance(x, ast.Call) for x in ast.walk(a.value)):
+                continue          # reads only
+            if isinstance(a, (ast.Raise, ast.Assert)):
+                continue
+            raise AnalysisError('_spawn: argv construction not understood: %s' % norm(a))
+        if 'self.args' not in env:
+            raise AnalysisError('_spawn: self.args is not set before the executable is looked up')
+        outs.add((objs[env['self.args']], mutated or objs['CALLER'] != ('*args',)))
+    return sorted(outs)
 
 
 MUTANTS = [
